@@ -3,12 +3,13 @@ from fractions import Fraction
 import numpy as np
 from ..env import Fxp, parse_list, tok_list, lims, codes_of, fmt_of, exc_token, tok_bool, tok_frac, tok_exact, to_float, is_exact_float, frac, flat, ROUNDS, OVFS
 from .. import gen as G
+from ..arith import hist_of
 from . import base
 
 TRUSTED_BASE = base.TRUSTED_BASE
 ASSUMPTIONS = base.ASSUMPTIONS + ['scale, bias and inputs are dyadic and chosen so that (v-b)/s, s*x+b and the limits are exact doubles (asserted with Fractions by the generator)']
 RULE = ('SC lines: formats n_word<=16 (n_frac 0..n_word), all 10 modes, dyadic scale k/2^j (also negative) and dyadic bias, int and float spellings of scale/bias/value, inputs on and between codes and beyond both bounds, scalars and arrays: '
-        'codes, get_val, upper, lower, precision, flags; SCI lines: inference on scaled inputs. non-trivial = scale != 1 or bias != 0 (always) and the inner value is not an in-range code')
+        'codes, get_val, upper, lower, precision, flags, observed after construction or after a content-determined history (store into an empty scaled object, resize keeping n_frac, resize to the own dtype); SCI lines: inference on scaled inputs. non-trivial = scale != 1 or bias != 0 (always) and the inner value is not an in-range code')
 TECHNIQUE = 'Lean 4 theorems (stored code = C01 quantization of (v-b)/s; read-back and limits are the affine image; round-trip error < |s|*LSB; flags = those of the inner value; inference on the inner value) + differential correspondence'
 LEVEL_TEXT = ('Machine-checked: a scaled object is the unscaled pipeline composed with the affine map x -> s*x+b: stored code satisfies the C01 statement for (v-b)/s, get_val is s*code*2^-n_frac+b, upper/lower/precision are the images of the unscaled ones '
               '(precision through s only), a non-overflowing input is read back within |s|*LSB, flags are those of the inner value. Correspondence over formats up to 16 bits, all modes, dyadic scales (also negative) and biases in int and float spellings.')
@@ -29,7 +30,29 @@ def exec_SC(t):
     vs = [frac(v) for v in parse_list(t[8])]
     try:
         vals = [num(v, sp) for v in vs]
-        x = Fxp(vals[0] if len(vals) == 1 else vals, s, n, f, rounding=r, overflow=o, scale=num(sc, sp), bias=num(bi, sp))
+        v_in = vals[0] if len(vals) == 1 else vals
+        kw = dict(rounding=r, overflow=o, scale=num(sc, sp), bias=num(bi, sp))
+        lo, hi = lims(s, n)
+        safe = all(lo + 1 <= (v - bi) / sc * 2 ** f <= hi - 1 for v in vs)     # no overflow whatever the rounding
+        h = hist_of(n, f, len(vs), *[int(v * 8) % 1009 for v in vs]) % 5
+        # "an object created with scale s and bias b" keeps them through its life: direct construction, a later store,
+        # a resize that keeps n_frac (narrowing a wider word), a resize to its own dtype, or both
+        if h == 1:
+            x = Fxp(None if len(vals) == 1 else np.zeros(len(vals)), s, n, f, **kw)
+            x.reset()       # the placeholder value 0 may itself be out of the scaled range (flags are sticky)
+            x(v_in) if len(vs) % 2 else x.set_val(v_in)
+        elif h == 2 and safe:
+            x = Fxp(v_in, s, n + 3, f, **kw)
+            x.resize(n_word=n)
+        elif h == 3 and safe:
+            x = Fxp(v_in, s, n, f, **kw)
+            x.resize(dtype=x.dtype)
+        elif h == 4 and safe:
+            x = Fxp(v_in, s, n + 2, f, **kw)
+            x.resize(s, n, f)
+            _ = x.get_val()
+        else:
+            x = Fxp(v_in, s, n, f, **kw)
         st = x.status
         gv = [tok_exact(v) for v in flat(x.get_val())]
         return [tok_list([str(c) for c in codes_of(x)]), tok_list(gv), tok_exact(x.upper), tok_exact(x.lower), tok_exact(x.precision),
